@@ -540,7 +540,7 @@ def _coq_raw(case):
     for u, v, d in Gr.edges(data=True):
         ro = {"reactant": "Reactant", "product": "Product"}.get(d.get("role"))
         arcs.append("(RArc %s %s %s %s)" % (cN(num[u]), cN(num[v]), _copt(ro, str), _copt(int(d["stoich"]) if "stoich" in d else None, cZ)))
-    if case.get("und"):          # the edges as networkx lists them (each once, either orientation); the model orients them
+    if case.get("und") in ("graph", "multi"):          # the edges as networkx lists them (each once, either orientation); the model orients them
         return "run19_nodes (as_bipartite_undirected (RG %s %s))" % (clist(nodes), clist(arcs))
     return "run19_nodes (RG %s %s)" % (clist(nodes), clist(arcs))
 
